@@ -288,3 +288,18 @@ func init() {
 	mutant("headerfield-copy-misses-sensible", "settings-copy-complete", "headerField.go", "	other.sensible = hf.sensible\n", "")
 	mutant("headerfield-copy-extends-value", "settings-copy-complete", "headerField.go", "	other.value = append(other.value[:0], hf.value...)", "	other.value = append(other.value, hf.value...)")
 }
+
+// Variants for padding-shape and frame-io-bounds.
+func init() {
+	mutant("cutpadding-rejects-legal-pad", "padding-shape", "http2utils/utils.go", "	if len(payload) < length-pad-1 || length-pad < 1 {", "	if len(payload) < length+pad-1 || length-pad < 1 {")
+	mutant("cutpadding-first-test-conjunction", "padding-shape", "http2utils/utils.go", "	if len(payload) == 0 || length < 1 || length > len(payload) {", "	if len(payload) == 0 && length < 1 || length > len(payload) {")
+	mutant("cutpadding-length-one-refused", "padding-shape", "http2utils/utils.go", "	if len(payload) == 0 || length < 1 || length > len(payload) {", "	if len(payload) == 0 || length <= 1 || length > len(payload) {")
+	mutant("addpadding-wraps", "padding-shape", "http2utils/utils.go", "	n := int(fastrand.Uint32n(256-9)) + 9", "	n := int(fastrand.Uint32n(257-9)) + 9")
+	mutant("addpadding-short-tail", "padding-shape", "http2utils/utils.go", "	b = Resize(b, nn+n)", "	b = Resize(b, nn+n-1)")
+	mutant("addpadding-stale-tail", "padding-shape", "http2utils/utils.go", "	clear(b[nn+1:])\n", "")
+	mutant("checklen-never-enforced", "frame-io-bounds", "frameHeader.go", "	if f.maxLen != 0 && f.length > int(f.maxLen) {", "	if f.maxLen == 0 && f.length > int(f.maxLen) {")
+	mutant("checklen-nonstrict", "frame-io-bounds", "frameHeader.go", "	if f.maxLen != 0 && f.length > int(f.maxLen) {", "	if f.maxLen != 0 && f.length >= int(f.maxLen) {")
+	mutant("reader-bound-dropped", "frame-io-bounds", "frameHeader.go", "	fr := AcquireFrameHeader()\n	fr.maxLen = max\n", "	fr := AcquireFrameHeader()\n")
+	mutant("one-octet-payload-unread", "frame-io-bounds", "frameHeader.go", "	if f.length > 0 {\n		n := f.length", "	if f.length > 1 {\n		n := f.length")
+	mutant("reader-count-wrong", "frame-io-bounds", "frameHeader.go", "		rn += int64(n)", "		rn -= int64(n)")
+}
